@@ -5,6 +5,7 @@ import random
 import re
 import sys
 
+import common
 from common import Driver, NCPU
 import docs as DOCS
 from docs import sdocs_to_sx, sx_str
@@ -113,7 +114,8 @@ def direct_chunk(args):
                     mism.append({'fn': 'unescape(spec)-vs-eval', 's': repr(s), 'quote': q, 'body': body, 'impl': want, 'model': u})
             for ml in max_lens:
                 try:
-                    lines = list(P.str_to_lines(ml, q, s))
+                    with common.time_limit(20):
+                        lines = list(P.str_to_lines(ml, q, s))
                     exp = '(ok' + ''.join(' (s %s)' % cps_of(l) if len(l) else ' (s)' for l in lines) + ')'
                     if len(lines) > 1:
                         nt += 1
@@ -132,7 +134,10 @@ def oracle_direct(m):
     s = eval(m['s'])
     if m['fn'] == 'str_to_lines':
         try:
-            lines = list(P.str_to_lines(m['max_len'], m['quote'], s))
+            with common.time_limit(20):
+                lines = list(P.str_to_lines(m['max_len'], m['quote'], s))
+        except common.ImplTimeout:
+            return {'kind': 'str_to_lines-does-not-terminate', **m}
         except Exception as e:
             return {'kind': 'str_to_lines-raises', **m, 'exc': type(e).__name__}
         empty = b'' if isinstance(s, bytes) else ''
@@ -193,7 +198,8 @@ def eval_chunk(args):
             val = cls(s)
         ctx = P.PrettyContext(indent=pp_indent, depth_left=float('inf'), multiline_strategy=STRATS[strategy])
         try:
-            sdoc = P.pretty_str(val, ctx)
+            with common.time_limit():
+                sdoc = P.pretty_str(val, ctx)
         except Exception as e:
             mism.append({'s': repr(s), 'error': 'pretty_str raised %s' % type(e).__name__})
             continue
@@ -252,7 +258,7 @@ def strings_section(tier, seed):
     L = 4 if tier == 'quick' else 5
     strings = list(all_strings(L, False)) + list(all_strings(L, True))
     # random long unicode / binary
-    cpool = "ab cd,ef.gh-ij'kl\"mn\\op\tq\nré中\U0001f600\x00\x7f  \xa0_09"
+    cpool = "ab cd,ef.gh-ij'kl\"mn\\op\tq\nré中\U0001f600\x00\x7f  \xa0_09\u0301\u0308"
     n_rand = 300 if tier == 'quick' else 4000
     for _ in range(n_rand):
         k = rng.choice([5, 12, 25, 60, 120])
@@ -260,6 +266,9 @@ def strings_section(tier, seed):
             strings.append(''.join(rng.choice(cpool) for _ in range(k)))
         else:
             strings.append(bytes(rng.choice([32, 39, 34, 92, 97, 98, 46, 47, 0, 10, 200, 255, 95, 48]) for _ in range(k)))
+    # combining marks (a piece may begin with one; a run of them may be longer than any piece), other zero-width / wide characters
+    for k in (1, 2, 3, 5, 12, 14):
+        strings += ['a' + '\u0301' * k, 'he comes z' + '\u0301\u0308' * k + 'algo', '\u0301' * k + 'x', ' \u200b' * k + '\uff21' * k]
     max_lens = list(range(1, 13))
     chunks = [(strings[i:i + 100], max_lens) for i in range(0, len(strings), 100)]
     tot = nt = 0
@@ -275,7 +284,8 @@ def strings_section(tier, seed):
     cases = []
     ev_strings = [s for s in all_strings(3 if tier == 'quick' else 4, False)][::3] + [s for s in all_strings(3, True)][::5]
     longs = ['a' * 30, 'aaa bbb ccc ddd eee fff ggg', "it's a \"quoted\" thing, with\\backslash", 'x' * 11, 'hello world', '',
-             'caf\xe9 中文 \x00\n', 'a-b-c-d-e-f-g-h-i-j-k-l', b'abc def ghi jkl mno', b'', b"\xff\x00'\"", b'x' * 25]
+             'caf\xe9 中文 \x00\n', 'a-b-c-d-e-f-g-h-i-j-k-l', b'abc def ghi jkl mno', b'', b"\xff\x00'\"", b'x' * 25,
+             'he comes z' + '\u0301' * 12 + 'algo', 'a' + '\u0308\u0301' * 9 + ' b', 'e\u0301 e\u0301 e\u0301 e\u0301 e\u0301 e\u0301']
     for _ in range(60 if tier == 'quick' else 600):
         k = rng.choice([8, 11, 14, 20, 33, 50])
         longs.append(''.join(rng.choice(cpool) for _ in range(k)))
